@@ -35,6 +35,10 @@ func (fv *FV) ghostBefore(st *State, s ast.Stmt) {
 		return
 	}
 	var text string
+	if ifs, ok := s.(*ast.IfStmt); ok {
+		// an if statement is anchored by `before "if <condition>"`
+		text = "if " + fv.src(ifs.Cond)
+	}
 	for _, g := range fv.fc.Ghosts {
 		if !strings.HasPrefix(g.Anchor, "before ") {
 			continue
